@@ -24,7 +24,7 @@ ASSUMPTIONS = [
     "the stop moment of a deadline is the first read made by the solver's Timer at or after the expiry (Display reads share the clock but cannot stop the solver)",
 ]
 TIERS = {
-    "quick": {"worlds": 160, "wall": 150, "cap": 20, "limit": 90.0, "max_points": 40},
+    "quick": {"worlds": 280, "wall": 150, "cap": 20, "limit": 90.0, "max_points": 40},
     "thorough": {"worlds": 2400, "wall": 1500, "cap": 80, "limit": 240.0, "max_points": 64},
 }
 GATES = ("stops.integration.iter", "stops.integration.deadline", "reference.with_failed_trials", "stops.deadline.with_display_rows", "stops.iter", "stops.deadline", "stops.deadline.inner", "stops.iter.reused_solver", "nontrivial")
